@@ -41,7 +41,7 @@ var (
 	rxPunctuation      = regexp.MustCompile(`\s+([.?!,;])\s*(\S*)`)
 	rxTempNewline      = regexp.MustCompile(`\s*\|\\/\|\s*`)
 	rxDisplay          = regexp.MustCompile(`(?i)display\s*:\s*([\w-]+)\s*(?:!\s*important\s*)?(?:;|$)`)
-	rxVisibilityHidden = regexp.MustCompile(`(?i)visibility:\s*(:?hidden|collapse)`)
+	rxVisibilityHidden = regexp.MustCompile(`(?i)visibility\s*:\s*(:?hidden|collapse)`)
 	rxSrcsetURL        = regexp.MustCompile(`(?i)(\S+)((?:\s+[\d.]+(?:e[+-]?\d+)?[xwh])*)(\s*(?:,|$))`)
 
 	elementWithSizeAttr = map[string]struct{}{
